@@ -93,7 +93,9 @@ def NumShape (body : List Char) (q : Rat) : Prop :=
   ∃ sg neg ip frac fp exp ex, body = sg ++ (ip ++ (frac ++ exp)) ∧ SignShape sg neg ∧ ip ≠ [] ∧ AllDigits ip ∧
     FracShape frac fp ∧ ExpShape exp ex ∧ q = decVal neg ip fp ex
 
-/-- `body` spells the token: membership in the token pattern's language + the value it denotes -/
+/-- `body` spells the token: membership in the token pattern's language + the value it denotes.  A number token is never
+spelled with a leading `-` (the pattern allows it, but `_parse_unary_expression` tries the unary operator first, so a
+`-` in operand position is always the operator token: `-5` is `[un neg, num 5]`). -/
 inductive Spell : Tok → List Char → Prop
   | bin (p : List Char) (o : BinOp) : (p, o) ∈ binOpAlts → Spell (.bin o) p
   | un (p : List Char) (o : UnOp) : (p, o) ∈ unOpAlts → Spell (.un o) p
@@ -105,7 +107,7 @@ inductive Spell : Tok → List Char → Prop
   | var (id : List Char) : IdentShape id → Spell (.var (Name.ofString (String.ofList id))) id
   | varEx (ws raw : List Char) : AllSpace ws → raw ≠ [] → BrTiles raw →
       Spell (.var (Name.ofString (String.ofList (unescape ']' raw)))) ('[' :: (ws ++ (raw ++ [']'])))
-  | num (body : List Char) (q : Rat) : NumShape body q → Spell (.num q) body
+  | num (body : List Char) (q : Rat) : NumShape body q → body.head? ≠ some '-' → Spell (.num q) body
   | str (q : Char) (raw : List Char) : (q = '\'' ∨ q = '"') → StrTiles q raw →
       Spell (.str (String.ofList (unescape q raw))) (q :: (raw ++ [q]))
 
@@ -124,7 +126,7 @@ theorem Spell.ne_nil {tok : Tok} {body : List Char} (h : Spell tok body) : body 
   | un p o hm => simp [unOpAlts] at hm; rcases hm with h | h <;> simp [h.1]
   | call id ws hid => obtain ⟨c, w, rfl, _⟩ := hid; simp
   | var id hid => obtain ⟨c, w, rfl, _⟩ := hid; simp
-  | num body q hn =>
+  | num body q hn _ =>
     obtain ⟨sg, neg, ip, frac, fp, exp, ex, rfl, _, hip, _⟩ := hn
     cases ip with
     | nil => exact absurd rfl hip
@@ -362,7 +364,7 @@ theorem scanExp_spec (t : List Char) : ∃ exp, t = exp ++ (scanExp t).2 ∧ Exp
             ExpShape.pos _ hne (allDigits_takeWhile r)⟩
     · exact ⟨[], rfl, ExpShape.none⟩
 
-theorem scanNumber_spec {t r : List Char} {q : Rat} (h : scanNumber t = some (q, r)) :
+theorem scanNumber_spec {t r : List Char} {q : Rat} (hun : scanUnaryOp t = none) (h : scanNumber t = some (q, r)) :
     ∃ ws body, t = ws ++ (body ++ r) ∧ AllSpace ws ∧ Spell (.num q) body := by
   obtain ⟨ws, hws, hsp⟩ := skipWs_split t
   unfold scanNumber at h
@@ -384,13 +386,22 @@ theorem scanNumber_spec {t r : List Char} {q : Rat} (h : scanNumber t = some (q,
     obtain ⟨rfl, rfl⟩ := h
     have hne : t1.takeWhile isDigit ≠ [] := by
       intro h0; rw [h0] at hip; simp at hip
-    refine ⟨ws, sg ++ (t1.takeWhile isDigit ++ (frac ++ exp)), ?_, hsp,
-      Spell.num _ _ ⟨sg, neg, _, frac, fp, exp, ex, rfl, hsgs, hne, allDigits_takeWhile t1, hfrs, hexs, rfl⟩⟩
-    rw [hws]; congr 1
-    rw [hsg]
     have h1 : t1 = t1.takeWhile isDigit ++ t1.dropWhile isDigit := (List.takeWhile_append_dropWhile).symm
-    conv => lhs; rw [h1, hfr, hex]
-    simp
+    have hbody : skipWs t = (sg ++ (t1.takeWhile isDigit ++ (frac ++ exp))) ++ t4 := by
+      rw [hsg]
+      conv => lhs; rw [h1, hfr, hex]
+      simp
+    refine ⟨ws, sg ++ (t1.takeWhile isDigit ++ (frac ++ exp)), ?_, hsp,
+      Spell.num _ _ ⟨sg, neg, _, frac, fp, exp, ex, rfl, hsgs, hne, allDigits_takeWhile t1, hfrs, hexs, rfl⟩ ?_⟩
+    · rw [hws]; congr 1
+    · intro hhead
+      cases hb : sg ++ (t1.takeWhile isDigit ++ (frac ++ exp)) with
+      | nil => rw [hb] at hhead; simp at hhead
+      | cons b bs =>
+        rw [hb] at hhead hbody
+        simp only [List.head?_cons, Option.some.injEq] at hhead
+        subst hhead
+        simp [scanUnaryOp, hbody, firstAlt, unOpAlts, stripPrefix?] at hun
 
 /-! ## strings and bracketed names -/
 
